@@ -61,6 +61,13 @@ CONSTANTS
   ActCoef,   \* ActCoef[a]: index in Coefs of the coefficient that action / energy_norm put for argument a (0: none)
   SameSpace, \* test space = trial space
   AsCoded,   \* TRUE: adjoint part labels and extract_blocks structure as coded; FALSE: as intended
+  VSub, USub,        \* Mixed = "element": <<physical value size, reference value size>> of every sub-element of
+                     \* the test / trial MixedElement (<< >>: the space of that side is not a MixedElement space).
+                     \* The two sizes differ for symmetric tensor sub-elements (2x2: 4 / 3) and for Piola mapped
+                     \* vector sub-elements on an immersed mesh (3 / 2).
+  OffsetBy,  \* "physical": FormSplitter.argument advances its offset into the flattened original argument by the
+             \* physical value size of each sub-element (as coded, as intended); "reference": by the reference
+             \* value size (the model-level counterexample: SplitterKeepsOwn fails)
   Programs   \* {}: every term of the bound is built step by step; otherwise a set of [prog, ints]:
              \* sampled programs (drawn by the harness), each validated against the constructors'
              \* guards and taken as an initial state
@@ -69,6 +76,14 @@ VARIABLES store, form, res
 vars == <<store, form, res>>
 
 ASSUME NV = Len(VSlot) /\ NU = Len(USlot) /\ Len(VPartOf) = NV /\ Len(UPartOf) = NU
+\* the flattened value vector of a MixedElement space: sub-element i occupies Phys(i) consecutive slots
+SubOk(sub, K, N, PartOf) ==
+  sub = << >> \/ /\ Len(sub) = K
+                 /\ \A i \in 1..K : sub[i][1] >= 1 /\ sub[i][2] >= 1 /\ sub[i][2] <= sub[i][1]
+                 /\ LET off[k \in 0..K] == IF k = 0 THEN 0 ELSE off[k - 1] + sub[k][1]
+                    IN off[K] = N /\ \A i \in 1..K, s \in 1..N : (PartOf[s] = i) <=> (s > off[i - 1] /\ s <= off[i])
+ASSUME (Mixed # "element" => VSub = << >> /\ USub = << >>) /\ OffsetBy \in {"physical", "reference"}
+ASSUME SubOk(VSub, KV, NV, VPartOf) /\ SubOk(USub, KU, NU, UPartOf)
 
 Envs == 1..NEnv
 Pts == Envs \X (0..NV) \X (0..NU)
@@ -98,7 +113,7 @@ OpDegs(op, ds) ==
     [] op = "div" -> IF B = DZ THEN A ELSE NLD
     [] op = "abs" -> IF A = DZ THEN DZ ELSE NLD
     [] op = "pow" -> IF A = DZ /\ B = DZ THEN DZ ELSE NLD
-    [] op = "list" -> UNION {ds[k] : k \in 1..Len(ds)}
+    [] op \in {"list", "rows"} -> UNION {ds[k] : k \in 1..Len(ds)}
 
 -----------------------------------------------------------------------------
 (* Values: every constructor as a function of operand records with fields sh, val *)
@@ -109,6 +124,7 @@ OpSh(op, mi, xs) ==
     [] op \in {"pow", "inner", "dot", "index", "isum"} -> << >>
     [] op = "outer" -> x.sh \o y.sh
     [] op = "list" -> <<Len(xs)>>
+    [] op = "rows" -> <<Len(xs)>> \o x.sh
 
 OpVal(op, mi, xs) ==
   LET x == xs[1]  y == xs[Len(xs)] IN
@@ -133,6 +149,8 @@ OpVal(op, mi, xs) ==
                            CMul(CConj(x.val[p][SubSeq(c, 1, Len(x.sh))]), y.val[p][SubSeq(c, Len(x.sh) + 1, Len(c))]))
     [] op = "index" -> PW(<< >>, LAMBDA p, c : x.val[p][mi])
     [] op = "list" -> PW(<<Len(xs)>>, LAMBDA p, c : xs[c[1] + 1].val[p][<< >>])
+    \* a list tensor of vectors of equal length (the matrix-valued pieces of ufl.split; only built in the prelude)
+    [] op = "rows" -> PW(<<Len(xs)>> \o x.sh, LAMBDA p, c : xs[c[1] + 1].val[p][Tail(c)])
 
 N(op, args, mi, sh, val, degs) ==
   [op |-> op, args |-> args, mi |-> mi, sh |-> sh, val |-> val, degs |-> degs]
@@ -226,7 +244,7 @@ SZ(n, DV, DU) ==            \* the rebuilt node n is a Zero
                          ELSE SZ(x.args[1], DV, DU)
     [] x.op \in {"add", "sub"} -> SZ(x.args[1], DV, DU) /\ SZ(x.args[2], DV, DU)
     [] x.op \in {"mul", "inner", "dot", "outer", "isum"} -> SZ(x.args[1], DV, DU) \/ SZ(x.args[2], DV, DU)
-    [] x.op = "list" -> \A k \in 1..Len(x.args) : SZ(x.args[k], DV, DU)
+    [] x.op \in {"list", "rows"} -> \A k \in 1..Len(x.args) : SZ(x.args[k], DV, DU)
     [] OTHER -> SZ(x.args[1], DV, DU)       \* neg conj real imag abs pow(base) div(numerator) var
 RECURSIVE ArgsIn(_, _, _)
 ArgsIn(n, DV, DU) ==        \* the Arguments left in the rebuilt node n
@@ -467,6 +485,26 @@ EBNone(i, j) ==
   \/ Mixed = "space" /\ Cardinality(FormArgs(d[1], d[2])) # Arity
 EBVal(k, i, j) == LET d == EBDead(i, j) IN IF EBNone(i, j) THEN ZVal(<< >>) ELSE ValD(store[form[k].root], d[1], d[2])
 EBCols == IF EBShape[2] = 0 THEN {1} ELSE 1..EBShape[2]
+(* FormSplitter.argument on a MixedElement argument `obj` with replace_argument = False, as coded: one   *)
+(* loop iteration per sub-element k.  The rebuilt vector `args` grows by the PHYSICAL value size of      *)
+(* sub-element k in every iteration (one entry per np.ndindex(a.ufl_shape)); for the requested           *)
+(* sub-element the entries are obj[counter + d - 1], d = 1..Phys(k), for the others Zero; then `counter` *)
+(* advances by Adv(k).  The split form is the form with obj replaced by `args`.  PosOff / CntOff: the    *)
+(* length of `args` / the value of `counter` at the start of iteration i.  KeptPos: the position of      *)
+(* `args` that carries component s (1-based) of obj in block i (0: none).  At the point where obj is    *)
+(* the s-th unit vector `args` is therefore the KeptPos-th unit vector (the zero vector when 0).        *)
+(* (replace_argument = True puts the components of a NEW Argument on the sub-element's space at the     *)
+(* positions PosOff + d: no counter, EBVal.)                                                            *)
+Adv(sz) == IF OffsetBy = "reference" THEN sz[2] ELSE sz[1]
+PosOff(sub, i) == LET f[k \in 0..Len(sub)] == IF k = 0 THEN 0 ELSE f[k - 1] + sub[k][1] IN f[i - 1]
+CntOff(sub, i) == LET f[k \in 0..Len(sub)] == IF k = 0 THEN 0 ELSE f[k - 1] + Adv(sub[k]) IN f[i - 1]
+KeptPos(sub, i, s) == LET d == s - CntOff(sub, i) IN IF s > 0 /\ d >= 1 /\ d <= sub[i][1] THEN PosOff(sub, i) + d ELSE 0
+VKeep(i, s) == IF VSub = << >> THEN (IF s \in DeadV(i) THEN 0 ELSE s) ELSE KeptPos(VSub, i, s)
+UKeep(j, t) == IF Arity # 2 THEN t
+               ELSE IF USub = << >> THEN (IF t \in DeadU(j) THEN 0 ELSE t) ELSE KeptPos(USub, j, t)
+EBValKeep(k, i, j) ==
+  IF EBNone(i, j) THEN ZVal(<< >>)
+  ELSE [p \in Pts |-> store[form[k].root].val[<<p[1], VKeep(i, p[2]), UKeep(j, p[3])>>]]
 EBSum(k) == SVal(LAMBDA p : CSumSet((1..EBShape[1]) \X EBCols, LAMBDA ij : EBVal(k, ij[1], ij[2])[p][<< >>]))
 
 -----------------------------------------------------------------------------
@@ -577,6 +615,10 @@ BlocksPartition == Done({"extract_blocks"}) => AllK(LAMBDA k : SameTab(Pts, EBSu
 BlocksLocal == Done({"extract_blocks"}) =>
   AllK(LAMBDA k : \A i \in 1..EBShape[1], j \in EBCols : \A p \in Pts :
      (p[2] > 0 /\ VPartOf[p[2]] # i) \/ (Arity = 2 /\ p[3] > 0 /\ UPartOf[p[3]] # j) => Eq(EBVal(k, i, j)[p][<< >>], C0))
+\* replace_argument = False keeps exactly the components of the requested sub-functions: the block is the
+\* one that replace_argument = True builds, whatever the reference value sizes of the sub-elements are
+SplitterKeepsOwn == Done({"extract_blocks"}) =>
+  AllK(LAMBDA k : \A i \in 1..EBShape[1], j \in EBCols : EBValKeep(k, i, j) = EBVal(k, i, j))
 BlocksShape == Done({"extract_blocks"}) =>
   EBShape = (IF Mixed = "element" THEN (IF Arity = 2 THEN <<KV, KU>> ELSE <<KV, 0>>)
              ELSE (IF Arity = 2 THEN <<NP, NP>> ELSE <<NP, 0>>))
